@@ -1693,6 +1693,10 @@ class Lib(object):
                 lo, hi = z3.IntVal(0), to_num(vals[0])
             elif len(vals) == 2:
                 lo, hi = to_num(vals[0]), to_num(vals[1])
+            elif isinstance(vals[2], int) and vals[2] > 0:
+                lo, hi, st = to_num(vals[0]), to_num(vals[1]), vals[2]
+                n = z3.simplify(z3.If(hi - lo > 0, (hi - lo + (st - 1)) / st, 0))
+                return SList(n, lambda kk: z3.simplify(lo + kk * st), tags={'range'})
             else:
                 raise Unsupported("range with symbolic step")
             n = z3.simplify(z3.If(hi - lo >= 0, hi - lo, 0))
